@@ -332,16 +332,16 @@ RULE_ADDENDA = {
     "C01": "Also generated: hook answers carrying a status stanza / own annotations / echoed observed annotations; discovery order; debug-verbosity logging; a matching orphan appearing under a replicated child name; scale-to-zero, foreign re-creation, scale back.",
     "C02": "Also generated: desired children carrying a plain owner or a foreign controller reference; an edit of the parent selector (hook following) between syncs; writes to objects the same sync released are judged separately from the known ownership-transfer finding. Adoption edits are legal only inside a namespaced parent's own namespace; namespaced parents that also declare a cluster-scoped child kind.",
     "C03": "Also generated: an ignored spec.selector on parents of generateSelector controllers; hook-set annotations; discovery order. A declared child kind hidden from discovery for one sync; the parent deleted while the parent cache is stale. A separate job on the real start-up path: a restarted controller whose child LIST is held back for 120-400 ms (thorough: also 11 s) must show every sync-hook call the complete set of existing children.",
-    "C04": "Also generated: the parent replaced by an object with another selector; an owned child relabelled; a co-owner reference added to the object of a chosen request right before it. Negative-only selectors with unlabeled children; a 503 on the fresh parent read before an adoption. Orphaned children and ControllerRevisions that are terminating (held by a finalizer).",
+    "C04": "Also generated: the parent replaced by an object with another selector; an owned child relabelled; a co-owner reference added to the object of a chosen request right before it. Negative-only selectors with unlabeled children; a 503 on the fresh parent read before an adoption. Orphaned children and ControllerRevisions that are terminating (held by a finalizer). Obligation side of release: after a succeeded sync of a live parent with a current cache no observed owned-but-not-matching child is still controlled by it.",
     "C06": "Also generated: desired children with a status stanza, hook-set annotations or an explicitly empty list; an injected name-keyed list entry; someone already setting the field (and value) the hook is about to add; debug-verbosity logging.",
     "C07": "Also generated: hooks without any status; mixed matchLabels/matchExpressions selectors; condition styles of healthy children (timestamps with and without zone, a malformed neighbour condition). Purely additive edits of a revisioned field (a key appears / disappears).",
     "C08": "Also generated: a second rolling kind whose children share the names of the first (liveness rules only); mixed selectors; observedGeneration and condition styles. Additive edits as first or second change; rollbacks.",
-    "C09": "Also generated: hook failure for the latest revision's call only / for superseded revisions' calls only (no write may follow); the parent deleted mid-rollout under a finalize hook that keeps the children; the not-ahead rule is judged at every sync boundary. Additive edits; a sync that runs on a ControllerRevision cache one sync behind; and a separate job on the real start-up path (Reconcile/Start, real informers): instance A brings 2-4 children up and is stopped, the template is edited, instance B starts while the simulator holds back its ControllerRevision LIST for 120-400 ms - no mutating request for children or revisions may arrive before that LIST is answered, and the rollout must complete afterwards (non-trivial = the LIST was actually held).",
+    "C09": "Also generated: hook failure for the latest revision's call only / for superseded revisions' calls only (no write may follow); the parent deleted mid-rollout under a finalize hook that keeps the children; the not-ahead rule is judged at every sync boundary. Additive edits; a sync that runs on a ControllerRevision cache one sync behind; and a separate job on the real start-up path (Reconcile/Start, real informers): instance A brings 2-4 children up and is stopped, the template is edited, instance B starts while the simulator holds back its ControllerRevision LIST for 120-400 ms - no mutating request for children or revisions may arrive before that LIST is answered, and the rollout must complete afterwards (non-trivial = the LIST was actually held). Fault kinds also: every per-revision hook call answered 429; a ControllerRevision deletion that is not the last of its sync.",
     "C10": "Also generated: 404 and conflict-on-every-retry on the finalizer write; a foreign finalizer holding the parent; selectors rendered as matchExpressions. The finalize answer must re-create missing children; a matching orphan appears / a child is deleted externally mid-finalization.",
     "C11": "Also generated: sync answers that say finalized; discovery order (status subresource listed before the resource). The parent deleted and finalizing between syncs. The status subresource appearing after the process first looked the resource up (controller rebuilt in the same process); hooks that ask for a resync (queue keys compared with the canonical key).",
     "C12": "Also generated: plain 404 at every request; scenarios whose faulted sync is the finalize or finalizer-removal sync of a deleted parent; a customize hook whose calls are faulted too, with the related map after recovery compared; a 404 on a read of the parent must lead to a retry or to all non-parent work being done. 409 on a child delete (must be retried); 6-11 consecutive failed syncs; a restart under server-side apply.",
-    "C13": "Also generated: per-field lists of type-correct but unusable values (selectors that cannot be converted, impossible names, versions, resources); after a customize attack related add/update/delete events are delivered to the handlers. Malformed answers during a rollout, optionally for superseded revisions only; in strict mode an unknown field of the real response types must be rejected.",
-    "C14": "Also generated: selectors rendered as matchExpressions. A separate job on the live path (hosted controller started through Reconcile, real informers, handlers, queue and workers): two parents with one hook-made child each; 2-5 single events (child edited / deleted, parent edited / annotated / created) after the controller has gone quiet, each must lead to a hook call about the parent concerned and, for child events, to none about the other parent; with a finalize hook the case ends with the deletion of a finalizer-carrying parent (finalize hook called, children gone, parent let go) (non-trivial = every case). Parents whose keys sit in the rate limiter after a failed sync when the events arrive.",
+    "C13": "Also generated: per-field lists of type-correct but unusable values (selectors that cannot be converted, impossible names, versions, resources); after a customize attack related add/update/delete events are delivered to the handlers. Malformed answers during a rollout, optionally for superseded revisions only; in strict mode an unknown field of the real response types must be rejected. The Content-Length an answer claims (absurd, wrong, unknown); a customize answer with a status other than 200/429 must fail the sync.",
+    "C14": "Also generated: selectors rendered as matchExpressions. A separate job on the live path (hosted controller started through Reconcile, real informers, handlers, queue and workers): two parents with one hook-made child each; 2-5 single events (child edited / deleted, parent edited / annotated / created) after the controller has gone quiet, each must lead to a hook call about the parent concerned and, for child events, to none about the other parent; with a finalize hook the case ends with the deletion of a finalizer-carrying parent (finalize hook called, children gone, parent let go) (non-trivial = every case). Parents whose keys sit in the rate limiter after a failed sync when the events arrive. The live job also draws ignoreStatusChanges and may start a second controller for the same parent resource on the warm informers (existing parents must be synced by it).",
     "C15": "Also generated: empty / expression-only selectors in invalid mixes; selectors that cannot be converted; parents deleted and held by the finalizer. A separate job on the live path (real Reconcile/Start and shared informers, the customize manager registering its own handlers): rules naming gadgets, the controller's own parent resource (peers) or its child resource, by label or not; 2-5 create/update/delete operations on related objects, each selected one must make the hook be called again for the parent with exactly the selected set (non-trivial = a selected object changed). One related resource momentarily missing from discovery.",
     "C16": "Also generated: target deletion, target replacement and a stale target cache between syncs; selectors as matchExpressions; empty-string patch values; every target write is judged on the live object before/after it (UID, spec, foreign metadata).",
     "C17": "Carriers now include the C08 and C09 generators (with stored ControllerRevisions relisted in another order). The concurrent-vs-sequential comparison includes the related-informer subscription counts and the related map of every hook call. Parents in two namespaces.",
